@@ -137,7 +137,7 @@ def parse_log(text):
 def classify(rc, text, parsed):
     if rc == 124 or rc == 137 and "VERIFICATION" not in text:
         return "timeout"
-    if "out of memory" in text or "bad_alloc" in text or "std::bad_alloc" in text:
+    if "appears to have run out of memory" in text or "std::bad_alloc" in text or "MemoryError" in text:
         return "oom"
     if parsed["status"] == "SUCCESSFUL":
         if parsed["unsat_covers"] or parsed["covers_sat"] != parsed["covers_total"]:
@@ -177,18 +177,27 @@ def run_one(mirror, target_dir, harness, logdir, timeout=1200, mem_gb=14, featur
     return parsed
 
 
-def run_many(mirror, target_dirs, jobs, logdir, parallel=14, **common):
+def run_many(mirror, target_dirs, jobs, logdir, parallel=14, mem_budget_gb=50, on_result=None, **common):
     """jobs: list of dicts with at least 'harness'; optional 'timeout', 'mem_gb'.
-    target_dirs: a base path; worker k uses <base>_<k> so that concurrent cargo invocations never
-    contend for the same build-directory lock (each invocation recompiles the crate for its harness)."""
+    target_dirs: a base path; worker k uses <base>_w<k> so that concurrent cargo invocations never
+    contend for the same build-directory lock (each invocation recompiles the crate for its harness).
+    Admission is memory-aware: the sum of the jobs' mem_gb limits never exceeds mem_budget_gb."""
     import queue
+    import threading
     os.makedirs(logdir, exist_ok=True)
     results = []
     pool = queue.Queue()
     for k in range(parallel):
         pool.put("%s_w%d" % (target_dirs, k))
+    cond = threading.Condition()
+    used = [0.0]
 
     def work(j):
+        need = min(float(j.get("mem_gb", common.get("mem_gb", 14))), mem_budget_gb)
+        with cond:
+            while used[0] + need > mem_budget_gb:
+                cond.wait()
+            used[0] += need
         td = pool.get()
         try:
             kw = dict(common)
@@ -198,6 +207,9 @@ def run_many(mirror, target_dirs, jobs, logdir, parallel=14, **common):
             return run_one(mirror, td, j["harness"], logdir, **kw)
         finally:
             pool.put(td)
+            with cond:
+                used[0] -= need
+                cond.notify_all()
 
     with cf.ThreadPoolExecutor(max_workers=parallel) as ex:
         futs = {ex.submit(work, j): j for j in jobs}
@@ -205,5 +217,7 @@ def run_many(mirror, target_dirs, jobs, logdir, parallel=14, **common):
             r = fu.result()
             r["job"] = {k: v for k, v in futs[fu].items() if k != "extra"}
             results.append(r)
+            if on_result:
+                on_result(r)
     results.sort(key=lambda r: r["harness"])
     return results
